@@ -107,6 +107,31 @@ theorem C21_map_certifies_expansion {defs : List (Def K)} {sel : String → Bool
     ExpandsPure defs sel src out :=
   mapOK_expandsPure h
 
+/-- **Lookups**: `list_sources` of any output index returns exactly one source instruction, … -/
+theorem C21_list_sources {defs : List (Def K)} {sel : String → Bool} {src out : List (Instr K)} {m : List Entry}
+    (h : MapOK defs sel 0 0 src out m) (t : Nat) (ht : t < out.length) :
+    ∃ k, listSources m t = [k] ∧ k < src.length := by
+  obtain ⟨e, he⟩ := tiles_unique_container (C21_tiles h) t (by omega) (by omega)
+  refine ⟨e.src, by simp [listSources, he], ?_⟩
+  have hm : e ∈ m := by
+    have : e ∈ m.filter (·.contains t) := by rw [he]; simp
+    exact (List.mem_filter.1 this).1
+  have : e.src ∈ m.map Entry.src := List.mem_map.2 ⟨e, hm, rfl⟩
+  rw [C21_sources h] at this
+  simp at this
+  omega
+
+/-- … and `list_targets` of any source index exactly one target. -/
+theorem C21_list_targets {defs : List (Def K)} {sel : String → Bool} {src out : List (Instr K)} {m : List Entry}
+    (h : MapOK defs sel 0 0 src out m) (s : Nat) (hs : s < src.length) : listTargetsCount m s = 1 := by
+  have hsrc := C21_sources h
+  have : listTargetsCount m s = (m.map Entry.src).count s := by
+    unfold listTargetsCount
+    rw [List.count_eq_countP, List.countP_map, List.countP_eq_length_filter]
+    congr 1
+  rw [this, hsrc]
+  rw [count_range']
+  simp [hs]
 /-- **The Bool checker the driver runs on the implementation's output decides `MapOK`.** -/
 theorem C21_checkMap_iff [DecidableEq K] (defs : List (Def K)) (sel : String → Bool) (m : List Entry)
     (k off : Nat) (src out : List (Instr K)) :
